@@ -14,7 +14,6 @@ import (
 
 	sdkmath "cosmossdk.io/math"
 	sdk "github.com/cosmos/cosmos-sdk/types"
-	authtypes "github.com/cosmos/cosmos-sdk/x/auth/types"
 
 	"github.com/kava-labs/kava/app"
 	earnkeeper "github.com/kava-labs/kava/x/earn/keeper"
@@ -75,7 +74,7 @@ func mkWorld() *world {
 			{MarketID: "bnb:usd", OracleAddress: sdk.AccAddress{}, Price: d("10.00"), Expiry: far},
 		},
 	}
-	irm := hardtypes.NewInterestRateModel(d("0.05"), d("2"), d("0.8"), d("10"))
+	irm := hardtypes.NewInterestRateModel(d("0.05"), d("0.5"), d("0.8"), d("1"))
 	hardGS := hardtypes.NewGenesisState(hardtypes.NewParams(
 		hardtypes.MoneyMarkets{
 			hardtypes.NewMoneyMarket("usdx", hardtypes.NewBorrowLimit(false, d("0"), d("0.8")), "usdx:usd",
@@ -92,8 +91,7 @@ func mkWorld() *world {
 		earntypes.NewAllowedVault(vaults[1].denom, earntypes.StrategyTypes{vaults[1].strat}, false, nil),
 	}), nil, nil)
 
-	cfgApp := app.NewTestApp()
-	cdc := cfgApp.AppCodec()
+	cdc := app.MakeEncodingConfig().Marshaler
 	tApp, ctx := kapp.NewApp(app.GenesisState{
 		pricefeedtypes.ModuleName: cdc.MustMarshalJSON(&pf),
 		hardtypes.ModuleName:      cdc.MustMarshalJSON(&hardGS),
@@ -108,11 +106,11 @@ func mkWorld() *world {
 	hard.BeginBlocker(ctx, hk)
 	// an underlying market in which interest accrues: a large supplier and a borrower of the vault denom
 	whale, borrower := addrs[nUsers], addrs[nUsers+1]
-	must(tApp.FundAccount(ctx, whale, sdk.NewCoins(sdk.NewCoin("usdx", sdkmath.NewInt(20_000_000_000_000)))))
-	must(tApp.FundAccount(ctx, borrower, sdk.NewCoins(sdk.NewCoin("bnb", sdkmath.NewInt(100_000_000_000_000)))))
-	must(hk.Deposit(ctx, whale, sdk.NewCoins(sdk.NewCoin("usdx", sdkmath.NewInt(20_000_000_000_000)))))
-	must(hk.Deposit(ctx, borrower, sdk.NewCoins(sdk.NewCoin("bnb", sdkmath.NewInt(100_000_000_000_000)))))
-	must(hk.Borrow(ctx, borrower, sdk.NewCoins(sdk.NewCoin("usdx", sdkmath.NewInt(5_000_000_000_000)))))
+	must(tApp.FundAccount(ctx, whale, sdk.NewCoins(sdk.NewCoin("usdx", sdkmath.NewInt(200_000_000_000_000)))))
+	must(tApp.FundAccount(ctx, borrower, sdk.NewCoins(sdk.NewCoin("bnb", sdkmath.NewInt(10_000_000_000_000_000)))))
+	must(hk.Deposit(ctx, whale, sdk.NewCoins(sdk.NewCoin("usdx", sdkmath.NewInt(200_000_000_000_000)))))
+	must(hk.Deposit(ctx, borrower, sdk.NewCoins(sdk.NewCoin("bnb", sdkmath.NewInt(10_000_000_000_000_000)))))
+	must(hk.Borrow(ctx, borrower, sdk.NewCoins(sdk.NewCoin("usdx", sdkmath.NewInt(50_000_000_000_000)))))
 	for _, u := range w.users {
 		ak.SetAccount(ctx, ak.NewAccountWithAddress(ctx, u))
 	}
@@ -403,7 +401,6 @@ type seqState struct {
 
 func (s *seqState) earnOp(r *c.Rng) {
 	w, out := s.w, s.out
-	ek := w.tApp.GetEarnKeeper()
 	pre := w.observeEarn(s.ctx)
 	vi := r.Intn(2)
 	a := r.Intn(nUsers)
@@ -431,6 +428,14 @@ func (s *seqState) earnOp(r *c.Rng) {
 		x, gen = withdrawAmount(r, pre[vi], a)
 	}
 	out.Note("gen-" + kind + "-" + gen)
+	s.execEarn(pre, kind, vi, a, x, denom, strat, vaultOk, stratOk)
+}
+
+// execEarn runs one earn keeper call on the real keeper and writes its case line
+func (s *seqState) execEarn(pre []vobs, kind string, vi, a int, x *big.Int, denom string, strat earntypes.StrategyType, vaultOk, stratOk bool) {
+	w, out := s.w, s.out
+	ek := w.tApp.GetEarnKeeper()
+	v := vaults[vi]
 	coin := sdk.Coin{Denom: denom, Amount: sdkmath.NewIntFromBigInt(x)}
 	payout := bi(0)
 	cls, err := kapp.Exec(s.ctx, func(ctx sdk.Context) error {
@@ -443,6 +448,12 @@ func (s *seqState) earnOp(r *c.Rng) {
 		}
 		return e
 	})
+	if cls == kapp.Err && kind == "wd" && strings.Contains(err.Error(), "failed to withdraw from strategy") &&
+		strings.Contains(err.Error(), "insufficient funds") {
+		// x/hard cannot pay (lent out): outside the model's envelope (checks/C11.json assumptions)
+		out.Note("excluded-hard-liquidity-shortage")
+		return
+	}
 	post := w.observeEarn(s.ctx)
 	// deposit-then-immediately-withdraw probe on a discarded branch: withdraw the account's whole value
 	probe := bi(-1)
@@ -470,11 +481,9 @@ func (s *seqState) earnOp(r *c.Rng) {
 		p, q := pre[vi], post[vi]
 		sig = fmt.Sprintf("%s|%s|v%d|fresh=%s|others=%s", kind, cls, vi, c.B(!p.found), c.B(p.tot.Cmp(p.sh[a]) != 0))
 		if kind == "wd" {
-			rem := new(big.Int).Sub(p.sh[a], new(big.Int).Sub(p.tot, q.tot))
 			swept := q.sh[a].Sign() == 0
 			sig += fmt.Sprintf("|empty=%s|deleted=%s|zeropay=%s|stranded=%s|exact=%s", c.B(swept), c.B(!q.found),
 				c.B(payout.Sign() == 0), c.B(!q.found && q.val.Sign() > 0), c.B(payout.Cmp(x) == 0))
-			_ = rem
 			if !q.found && q.val.Sign() > 0 {
 				out.Note("withdraw-left-stranded-value")
 			}
@@ -483,11 +492,7 @@ func (s *seqState) earnOp(r *c.Rng) {
 				c.B(p.found && new(big.Int).Mul(p.val, big.NewInt(1e18)).Cmp(p.tot) > 0))
 		}
 	} else if err != nil {
-		e := err.Error()
-		if len(e) > 40 {
-			e = e[:40]
-		}
-		out.Note("err-" + kind + ": " + e)
+		out.Note("err-" + kind + "-" + errKind(err))
 		sig = fmt.Sprintf("%s|%s|%s", kind, cls, errKind(err))
 	}
 	fields := []string{kind, fmt.Sprint(vi), fmt.Sprint(a), x.String(), c.B(vaultOk), c.B(stratOk), "1"}
@@ -516,6 +521,11 @@ func (s *seqState) accrue(r *c.Rng) {
 	pre := w.observeEarn(s.ctx)
 	dts := []int64{1, 60, 3600, 86400, 30 * 86400, 365 * 86400}
 	dt := dts[r.Intn(len(dts))]
+	// keep the underlying market liquid (assumption of the model): at most 4 simulated years per
+	// sequence, after that only short steps
+	if s.t.Sub(kapp.GenTime)+time.Duration(dt)*time.Second > 4*365*24*time.Hour {
+		dt = dts[r.Intn(4)]
+	}
 	s.t = s.t.Add(time.Duration(dt) * time.Second)
 	s.ctx = s.ctx.WithBlockTime(s.t).WithBlockHeight(s.ctx.BlockHeight() + 1)
 	panicked, msg := c.Recover(func() { hard.BeginBlocker(s.ctx, w.tApp.GetHardKeeper()) })
@@ -609,7 +619,17 @@ func (s *seqState) savingsOp(r *c.Rng) {
 				gen = "duplicate"
 			}
 		case 2:
-			if len(coins) == 2 {
+			if len(coins) == 1 {
+				other := "busd"
+				if coins[0].Denom == "busd" {
+					other = "ukava"
+				}
+				coins = append(coins, sdk.Coin{Denom: other, Amount: sdkmath.NewInt(r.Range(1, 5))})
+				if coins[0].Denom < coins[1].Denom {
+					coins[0], coins[1] = coins[1], coins[0]
+				}
+				gen = "unsorted"
+			} else if len(coins) == 2 {
 				coins[0], coins[1] = coins[1], coins[0]
 				gen = "unsorted"
 			}
@@ -689,6 +709,30 @@ func (s *seqState) savingsOp(r *c.Rng) {
 	out.Case(sig, "c11.sav", fields...)
 }
 
+// corpus: the minimal witness of findings/C11-dust-sweep-strands-value.md on both vaults, run first
+// on every run: A deposits 1 000 000 and withdraws 999 001 (the rest is swept as dust and stays
+// in the strategy), B deposits 1 (and could withdraw 1000).
+func (w *world) corpus(out *c.Out) {
+	ctx, _ := w.base.CacheContext()
+	s := &seqState{w: w, out: out, ctx: ctx, t: kapp.GenTime}
+	for _, u := range w.users {
+		for _, v := range vaults {
+			must(w.tApp.FundAccount(s.ctx, u, sdk.NewCoins(sdk.NewCoin(v.denom, sdkmath.NewInt(2_000_000)))))
+		}
+	}
+	for vi, v := range vaults {
+		for _, op := range []struct {
+			kind string
+			a    int
+			x    int64
+		}{{"dep", 0, 1_000_000}, {"wd", 0, 999_001}, {"dep", 1, 1}, {"wd", 1, 1000}} {
+			s.execEarn(w.observeEarn(s.ctx), op.kind, vi, op.a, bi(op.x), v.denom, v.strat, true, true)
+			out.Note("corpus-ops")
+			w.invariants(s.ctx, out, "corpus")
+		}
+	}
+}
+
 func (w *world) seq(out *c.Out, seq int, r *c.Rng) {
 	ctx, _ := w.base.CacheContext()
 	s := &seqState{w: w, out: out, ctx: ctx, t: kapp.GenTime}
@@ -724,6 +768,18 @@ func main() {
 	defer out.Close()
 	r := c.NewRng(c.Seed())
 	n := c.Budget(96, 2000)
-	kapp.RunSeqs(n, c.Workers(), r, mkWorld, func(w *world, seq int, r *c.Rng) { w.seq(out, seq, r) })
-	_ = authtypes.ModuleName
+	// app.NewTestApp() rewrites the global sdk.Config (SetSDKConfig) on every call, which races with
+	// workers that are already running: build all worlds first, sequentially.
+	workers := c.Workers()
+	if workers > n {
+		workers = n
+	}
+	pool := make(chan *world, workers)
+	for i := 0; i < workers; i++ {
+		pool <- mkWorld()
+	}
+	w0 := <-pool
+	w0.corpus(out)
+	pool <- w0
+	kapp.RunSeqs(n, workers, r, func() *world { return <-pool }, func(w *world, seq int, r *c.Rng) { w.seq(out, seq, r) })
 }
